@@ -35,11 +35,30 @@ class HierarchyFilter(Filter):
         super(HierarchyFilter, self).__init__(rtdc_ds)
         self._parent_rtdc_ds = None
         self._parent_hash = None
+        self._root_ids = None
         self.update_parent(rtdc_ds.hparent)
+
+    def _get_root_ids(self):
+        """Root parent indices of the events selected by the parent"""
+        parent = self._parent_rtdc_ds
+        indices = np.where(parent.filter.all)[0]
+        if parent.format == "hierarchy":
+            indices = map_indices_child2root(child=parent,
+                                             child_indices=indices)
+        return indices
 
     @property
     def parent_changed(self):
-        return hashobj(self._parent_rtdc_ds.filter.all) != self._parent_hash
+        # Compare the root parent indices of the selected events, not just
+        # the parent's boolean filter array: The latter may be identical
+        # for a different set of events (when an ancestor changed).
+        try:
+            cur_hash = hashobj(self._get_root_ids())
+        except IndexError:
+            # The hierarchy tree above is in an inconsistent state, because
+            # an ancestor changed.
+            return True
+        return cur_hash != self._parent_hash
 
     def apply_manual_indices(self, rtdc_ds, manual_indices):
         """Write to `self.manual`
@@ -87,25 +106,23 @@ class HierarchyFilter(Filter):
         which have been manually excluded before and are now
         hidden because a hierarchy parent filtered it out.
 
-        If `self.parent_changed` is `True`, i.e. the parent applied
-        a filter and the child did not yet hear about this, then
-        nothing is computed and `self._man_root_ids` as-is.  This
-        is important, because the size of the current filter would
-        not match the size of the filtered events of the parent and
-        thus index-mapping would not work.
+        The boolean array `self.manual` is translated to root indices
+        with the mapping that was valid when this filter was created.
+        Therefore, manual exclusions are also retrieved correctly if the
+        parent applied a filter and the child did not yet hear about it.
         """
-        if self.parent_changed:
-            # ignore
-            pass
-        elif np.all(self.manual):
+        if np.all(self.manual):
             # Do not do anything and remember the events we manually
             # excluded in case the parent reinserts them.
             pass
         else:
-            # indices from boolean array
-            pbool = map_indices_child2root(
-                child=rtdc_ds,
-                child_indices=np.where(~self.manual)[0]).tolist()
+            # Indices from boolean array; `self.manual` refers to the
+            # events the parent selected when this filter was created,
+            # so we use the root indices remembered from that point in
+            # time. This also works when the parent (or an ancestor)
+            # has changed in the meantime.
+            root_ids = self._root_ids
+            pbool = root_ids[np.where(~self.manual)[0]].tolist()
             # retrieve all indices that are currently not visible
             # previous indices
             pold = self._man_root_ids
@@ -113,12 +130,8 @@ class HierarchyFilter(Filter):
             # - self.manual or
             # - self.apply_manual_indices
             pall = sorted(list(set(pbool + pold)))
-            # visible indices (only available child indices are returned)
-            pvis_c = map_indices_root2child(child=rtdc_ds,
-                                            root_indices=pall).tolist()
-            # map visible child indices back to root indices
-            pvis_p = map_indices_child2root(child=rtdc_ds,
-                                            child_indices=pvis_c).tolist()
+            # visible indices (root indices covered by `self.manual`)
+            pvis_p = np.intersect1d(pall, root_ids).tolist()
             # hidden indices
             phid = list(set(pall) - set(pvis_p))
             # Why not set `all_idx` to `pall`:
@@ -137,4 +150,5 @@ class HierarchyFilter(Filter):
         # hold reference to rtdc_ds parent
         # (not to its filter, because that is reinstantiated)
         self._parent_rtdc_ds = parent_rtdc_ds
-        self._parent_hash = hashobj(self._parent_rtdc_ds.filter.all)
+        self._root_ids = self._get_root_ids()
+        self._parent_hash = hashobj(self._root_ids)
